@@ -1,6 +1,8 @@
 #!/venv/bin/python
-"""Acceptance trials for C12 / C03 (builder `builders`): apply one textual edit to the scratch copy of the library,
-run the check(s), record what fired, revert.   usage: tools/mutants_builders.py [name-substring]"""
+"""Acceptance trials for C12 / C03 (builder `builders`): apply one textual edit (or one patch file) to the scratch copy
+of the library, run the check(s), record what fired, revert.   usage: tools/mutants_builders.py [name-substring]
+The scratch copy (MUTANT_REPO, default /work/builders/repo) is expected to hold the tree the checks are green on
+(currently /repo HEAD + docs/patches/F30.diff)."""
 import json, os, subprocess, sys
 HERE = os.path.dirname(os.path.dirname(os.path.abspath(__file__)))
 REPO = os.environ.get("MUTANT_REPO", "/work/builders/repo")
@@ -40,13 +42,55 @@ M = [
 ]
 
 
+# patch files: (name, path of the diff, reverse?, properties)
+P = [
+ ("revert F30 (Rpms.add accepts an empty path again)", "docs/patches/F30.diff", True, ["C12"]),
+ ("seeded C12-s2a (Modules.add overwrites the RPM list)", "seeded/C12-s2a/patch.diff", False, ["C12", "C03"]),
+ ("seeded C12-s2b (setdefault of variant/arch before the srpm check)", "seeded/C12-s2b/patch.diff", False, ["C12"]),
+ ("seeded C03-s3a (sigkey lower-cased on load instead of in add)", "seeded/C03-s3a/patch.diff", False, ["C03", "C12"]),
+ ("seeded C03-s3b (module RPM list sorted/deduplicated on load)", "seeded/C03-s3b/patch.diff", False, ["C03"]),
+ ("seeded revert-F5 (patch file)", "seeded/revert-F5/patch.diff", False, ["C12"]),
+]
+
+
 def sh(cmd, **kw):
     return subprocess.run(cmd, shell=True, capture_output=True, text=True, **kw)
+
+
+def run_props(name, props, rows):
+    for p in props:
+        r = sh("cd %s && PRODUCTMD_REPO=%s ./check %s --tier quick" % (HERE, REPO, p))
+        lines = [l for l in r.stdout.splitlines() if l.startswith("VIOLATION")]
+        what = "-"
+        if lines:
+            parts = lines[0].split()
+            rp = [x for x in parts if x.startswith("replay=")][0][7:]
+            pl = json.load(open(os.path.join(HERE, rp)))
+            obs = pl.get("observed")
+            kind = (obs.get("kind") if isinstance(obs, dict) and "kind" in obs else None) or pl.get("kind")
+            what = "%s%s" % (kind, " no-failing-input-found" if "no-failing-input-found" in lines[0] else "")
+            call = (obs or {}).get("call") if isinstance(obs, dict) else None
+            what += " | broken=%d | " % len(pl.get("broken") or []) + json.dumps(call or pl.get("case", {}).get("args"), sort_keys=True)[:160]
+        rows.append((name, p, "exit %d, %d VIOLATION: %s" % (r.returncode, len(lines), what)))
+        print(rows[-1], flush=True)
 
 
 def main():
     pat = sys.argv[1] if len(sys.argv) > 1 else ""
     rows = []
+    for name, diff, reverse, props in P:
+        if pat not in name:
+            continue
+        flag = "-R " if reverse else ""
+        back = "" if reverse else "-R "
+        r = sh("cd %s && git apply %s%s" % (REPO, flag, os.path.join(HERE, diff)))
+        if r.returncode != 0:
+            rows.append((name, "?", "PATCH DOES NOT APPLY: %s" % r.stderr[:200])); print(rows[-1]); continue
+        try:
+            run_props(name, props, rows)
+        finally:
+            r = sh("cd %s && git apply %s%s" % (REPO, back, os.path.join(HERE, diff)))
+            assert r.returncode == 0, r.stderr
     for name, fn, old, new, props in M:
         if pat not in name:
             continue
@@ -56,24 +100,9 @@ def main():
             rows.append((name, "?", "PATCH DOES NOT APPLY (%d)" % src.count(old))); print(rows[-1]); continue
         open(path, "w").write(src.replace(old, new))
         try:
-            for p in props:
-                r = sh("cd %s && PRODUCTMD_REPO=%s ./check %s --tier quick" % (HERE, REPO, p))
-                lines = [l for l in r.stdout.splitlines() if l.startswith("VIOLATION")]
-                what = "-"
-                if lines:
-                    parts = lines[0].split()
-                    rp = [x for x in parts if x.startswith("replay=")][0][7:]
-                    pl = json.load(open(os.path.join(HERE, rp)))
-                    obs = pl.get("observed")
-                    kind = (obs.get("kind") if isinstance(obs, dict) and "kind" in obs else None) or pl.get("kind")
-                    what = "%s%s" % (kind, " no-failing-input-found" if "no-failing-input-found" in lines[0] else "")
-                    call = (obs or {}).get("call") if isinstance(obs, dict) else None
-                    what += " | " + json.dumps(call or pl.get("case", {}).get("args"), sort_keys=True)[:160]
-                rows.append((name, p, "exit %d, %d VIOLATION: %s" % (r.returncode, len(lines), what)))
-                print(rows[-1], flush=True)
+            run_props(name, props, rows)
         finally:
             open(path, "w").write(src)
-    sh("cd %s && git checkout -- ." % REPO)
     return rows
 
 
